@@ -17,7 +17,7 @@ META = {
                "parameter, payload source), embedded and detached variants differing only in the payload slot; R-2 the create helper "
                "stores the closure's result in exactly the field the verify helper hands over first (signature / sig.signature then "
                "pushed / tag / ciphertext = Some); R-3 verify/decrypt return the closure's return value itself; R-4 in the fallible "
-               "variants the closure's Err is propagated before anything is stored; R-5 the crate has no statics and no interior "
+               "variants the closure's Err is propagated before anything is stored; R-5 the crate has no statics and no interior " 
                "mutability, so helpers depend only on the builder's current value.",
     "does_not_decide": "that the protected headers and payload survive the wire for all contents (C02 + C07 + ciborium); the perturbation "
                        "clause (any change of AAD/payload/header changes the bytes) is a corollary of C03-C05 injectivity, not checked",
@@ -142,7 +142,15 @@ def check(ctx):
         ctx.ob("R-2", "same-field:%s" % fam, st == vs and len(st) == 1, "%s: stored field %s == verified field %s" % (fam, sorted(st), sorted(vs)))
     # the protected slot really depends on the header: stored bytes, else empty iff ALL fields are empty, else the encoded map
     check_cbor_bstr(ctx, "R-1")
+    S.check_derived_impls(ctx, "R-1", {"core::clone::Clone"})
     check_is_empty(ctx, "R-1")
+    # R-6 "serialising the message and parsing it back": the carriers' encoder / decoder tables are mutually inverse, so the
+    # stored signature / tag / ciphertext, the payload and the headers that the verify / decrypt helper reads after a decode
+    # are the ones the creating helper stored (the recogniser of C07 R-1 / R-4 under this property's name)
+    from rules import c07
+    for ty in ("sign::CoseSignature", "sign::CoseSign", "sign::CoseSign1", "encrypt::CoseRecipient", "encrypt::CoseEncrypt",
+               "encrypt::CoseEncrypt0", "mac::CoseMac", "mac::CoseMac0"):
+        c07._array_pair(ctx.under("R-6", "codec"), ty)
     # R-5
     statics = prog.d.get("statics", [])
     ctx.ob("R-5", "no-statics", not statics, "the crate defines no static items", detail={"statics": statics})
